@@ -16,6 +16,7 @@ from props.base import Context  # noqa: F401
 
 PID = 'C15'
 TIE_MODULES = ['DiffxVerif.Tie.Boms']
+NEEDS = ['text']
 ASSUMPTIONS = [
     'the codec catalogue is enumerated from the running CPython (encodings package + aliases); codec laws (per-character homomorphism, round trip, newline facts) are TESTED here per codec, not proved: this test is part of the trusted base of C01-C03',
     'platform BOM table (utf-16, utf-32, utf-8-sig) stated in Tie/Boms.lean is checked against CPython here',
